@@ -15,8 +15,12 @@ The lexer on flat documents whose values are scalars or LISTS OF SCALARS, in eit
 * `FF0` / `FFmid`: no line of the text is a fence line, walked along the text (the item lines are indented, so
   `fenceLine_none_of_head` does not apply); `NoTab`;
 * runs: `lex_inline`, `lex_multi`, `lex_value`, `lex_lline`, `lex_llines`, and the result `tokenize_ldoc`.
+
+Everything lives in `namespace Octave.ListDoc` (also `Lemmas/ListBridge`).  Case splits that NAME the constructors of `FScalar`
+(a new constructor needs a new case there): `step_item`, `scalar_text_ne_nil`, `scalar_text_head`; all other case splits are
+`cases v <;> rfl` / `simp`.
 -/
-namespace Octave
+namespace Octave.ListDoc
 open Lexer Scan Emitter
 
 /-! ### values, lines, layouts -/
@@ -172,7 +176,7 @@ theorem toksReps_append (a b : List Token) : toksReps (a ++ b) = toksReps a ++ t
 theorem toksReps_cons (t : Token) (ts : List Token) : toksReps (t :: ts) = tokReps t ++ toksReps ts := by
   simp [toksReps, List.flatMap_cons]
 
-theorem FScalar.tokReps_eq (v : FScalar) (l c : Nat) : tokReps (v.tok l c) = v.reps l c := by
+theorem scalar_tokReps (v : FScalar) (l c : Nat) : tokReps (v.tok l c) = v.reps l c := by
   cases v <;> rfl
 
 /-! ### where the lexer is; reading a prefix -/
@@ -495,7 +499,7 @@ theorem step_item (env : Env) (lenient : Bool) (st : LState) (v : FScalar) (p d 
     obtain ⟨st', h1, h2⟩ := step_int env lenient st i (d :: rest) hr (numTerm_term env d rest hterm) hv
     exact ⟨st', _, h1, h2⟩
 
-theorem FScalar.text_ne_nil (v : FScalar) (hv : v.OK) : v.text ≠ [] := by
+theorem scalar_text_ne_nil (v : FScalar) (hv : v.OK) : v.text ≠ [] := by
   cases v with
   | qstr s => simp [FScalar.text, quoted]
   | bare s =>
@@ -516,7 +520,7 @@ theorem lex_item (env : Env) (lenient : Bool) (st : LState) (v : FScalar) (p : C
   obtain ⟨d, rest, rfl, hd⟩ := hterm
   obtain ⟨st', q, e, a⟩ := step_item env lenient st v p d rest h.ready hp hsep hd hv
   rw [h.line, h.col] at a
-  have := lexes_of_adv (by simp) e a h (by simp [toksReps, FScalar.tokReps_eq])
+  have := lexes_of_adv (by simp) e a h (by simp [toksReps, scalar_tokReps])
   exact ⟨st', this.1, this.2.1⟩
 
 /-! ### list values -/
@@ -525,8 +529,8 @@ theorem At.cast {st : LState} {l c l' c' : Nat} {stk : List (Nat × Nat)} (h : A
     At st l' c' stk := by subst hl; subst hc; exact h
 
 /-- the first char of a scalar's text: not a space, not a backtick, not a line break. -/
-theorem FScalar.text_head (v : FScalar) (hv : v.OK) : ∃ c t, v.text = c :: t ∧ c ≠ ' ' ∧ c ≠ '`' ∧ c ≠ '\n' := by
-  obtain ⟨c, t, hct⟩ := List.exists_cons_of_ne_nil (FScalar.text_ne_nil v hv)
+theorem scalar_text_head (v : FScalar) (hv : v.OK) : ∃ c t, v.text = c :: t ∧ c ≠ ' ' ∧ c ≠ '`' ∧ c ≠ '\n' := by
+  obtain ⟨c, t, hct⟩ := List.exists_cons_of_ne_nil (scalar_text_ne_nil v hv)
   have hnl : c ≠ '\n' := (scalar_clean v hv c (by rw [hct]; simp)).1
   have h2 : c ≠ ' ' ∧ c ≠ '`' := by
     cases v with
@@ -600,7 +604,7 @@ theorem lex_itemLine (env : Env) (lenient : Bool) (st : LState) (ind : Nat) (x :
   · subst hind
     obtain ⟨s2, x2, a2⟩ := lex_item env lenient st x '\n' R l 1 stk h hp (Or.inr (Or.inr (Or.inr (Or.inr rfl)))) hterm hx
     exact ⟨s2, by simpa [spacesL, indToks] using x2, a2.cast rfl (by omega)⟩
-  · obtain ⟨c0, t0, hct, h1, _, h3⟩ := FScalar.text_head x hx
+  · obtain ⟨c0, t0, hct, h1, _, h3⟩ := scalar_text_head x hx
     have e : x.text ++ R = c0 :: (t0 ++ R) := by rw [hct]; simp
     obtain ⟨s1, x1, a1, p1⟩ := lex_indent env lenient st ind c0 (t0 ++ R) l stk h (by omega) h1 h3
     rw [← e] at x1
@@ -809,12 +813,12 @@ theorem FF0_start (n : Nat) (c : Char) (t : Str) (h1 : c ≠ ' ') (h2 : c ≠ '`
   · have : d = c := by simpa using h'
     subst this; exact h3
 
-theorem FScalar.noNl (x : FScalar) (hx : x.OK) : NoNl x.text := fun d hd => (scalar_clean x hx d hd).1
+theorem scalar_noNl (x : FScalar) (hx : x.OK) : NoNl x.text := fun d hd => (scalar_clean x hx d hd).1
 
 /-- an item line (indentation, item) followed by a fence-free rest of the line. -/
 theorem FF0_item (ind : Nat) (x : FScalar) (R : Str) (hx : x.OK) (h : FFmid R) : FF0 (spacesL ind ++ (x.text ++ R)) := by
-  obtain ⟨c0, t0, hct, h1, h2, h3⟩ := FScalar.text_head x hx
-  have hn : NoNl t0 := fun d hd => FScalar.noNl x hx d (by rw [hct]; simp [hd])
+  obtain ⟨c0, t0, hct, h1, h2, h3⟩ := scalar_text_head x hx
+  have hn : NoNl t0 := fun d hd => scalar_noNl x hx d (by rw [hct]; simp [hd])
   rw [hct]
   exact FF0_start ind c0 (t0 ++ R) h1 h2 h3 (FFmid_append t0 R hn h)
 
@@ -846,7 +850,7 @@ theorem inlineText_clean (items : List FScalar) (h : ∀ x ∈ items, x.OK) : Cl
 
 theorem FFmid_value (v : FValue) (lay : Layout) (Y : Str) (hv : v.OK) (hY : FFmid Y) : FFmid (v.text lay ++ Y) := by
   cases v with
-  | scalar s => exact FFmid_append _ _ (FScalar.noNl s hv) hY
+  | scalar s => exact FFmid_append _ _ (scalar_noNl s hv) hY
   | list items =>
     cases lay with
     | inline => exact FFmid_append _ _ (fun d hd => (inlineText_clean items hv d hd).1) hY
@@ -1000,4 +1004,4 @@ theorem tokenize_ldoc (env : Env) (lenient : Bool) (name : Str) (ls : List LL)
   conv => rhs; rw [ldocToks_eq]
   simp [tEof]
 
-end Octave
+end Octave.ListDoc
